@@ -246,7 +246,7 @@ EXTRA = {
     "C02": " Creation plans (Yaw.C18P.*) bind argument forwarding and the order probe -> write -> load of the constructors; a controlled pool delivers the parts of a chunk in chosen orders and completes asynchronous submissions only when waited for.",
     "C09": " Creation plans (Yaw.C18P.*): overwrite permission, progress and worker limit reach write_patches / load_patches unchanged in all three constructors.",
     "C03": " Hidden state is excluded structurally (per-class method lists, Yaw.C17.class_methods) and by strata: measurements that come and go, set_patch_pair between two samplings, against an exact rational oracle.",
-    "C05": " What travels to the workers by pickle is bound by the per-class method lists (Yaw.C17.class_methods); jobs and their bound arguments pass through pickle in the controlled pool, with the non-default closed side.",
+    "C05": " Worker count (Yaw.Glue.get_size_spec / num_processes_spec: between 1 and the available size for every limit). Patch ids and directory names (Yaw.C05Path.*): the id parsed from the directory name of patch k is k for EVERY k (id_of_path, over the decimal digits of k and List.splitOn), different patches have different directories; flags bind template and parser. What travels to the workers by pickle is bound by the per-class method lists (Yaw.C17.class_methods); jobs and their bound arguments pass through pickle in the controlled pool, with the non-default closed side.",
 }
 for _k, _v in EXTRA.items():
     CHECKS[_k]["text"] += _v
